@@ -50,6 +50,12 @@ def SX_FMT(v, conv, spec):
             return "<sym>"
         if conv == -1 and not spec and _isinstance(v, SymStr):
             return v
+        if conv == -1 and _isinstance(v, SymInt) and _isinstance(spec, _str) and _len(spec) >= 3 and spec[0] == "0" and spec[-1] == "d" and spec[1:-1].isdigit():
+            # zero-padded decimal, e.g. {count:04d}
+            its = list(items_of(shims.int_to_str(v)))
+            if its and its[0] == "-":
+                raise Unsupported("zero-padded rendering of a negative symbolic integer")
+            return mk(tuple(["0"] * max(0, int(spec[1:-1]) - _len(its)) + its))
         raise Unsupported("formatted f-string piece with symbolic value")
     if conv == 115:
         v = _str(v)
